@@ -51,9 +51,9 @@ theorem C16_cstring_view (s : Bytes) :
   · simp [Model.rfc2047Decode, C16_rfc2047]
 
 /-! Non-vacuity: concrete non-trivial inputs on which the reference decoders decode. -/
-example : Spec.b64 (ofString "aGVs bG8=") = some (ofString "hello") := by decide
-example : Spec.b64 (ofString "aGVsbG9=") = none := by decide   -- non-zero trailing bits
-example : Spec.qp false (ofString "a=3Db=\nc=3") = ofString "a=bc=3" := by decide
-example : Spec.rfc2047 (ofString "=?utf-8?Q?a_b?= =?x?b?Yw==?= d") = ofString "a bc d" := by decide
+example : Spec.b64 (ofString "aGVs bG8=") = some (ofString "hello") := by decide +kernel
+example : Spec.b64 (ofString "aGVsbG9=") = none := by decide +kernel   -- non-zero trailing bits
+example : Spec.qp false (ofString "a=3Db=\nc=3") = ofString "a=bc=3" := by decide +kernel
+example : Spec.rfc2047 (ofString "=?utf-8?Q?a_b?= =?x?b?Yw==?= d") = ofString "a bc d" := by decide +kernel
 
 end Mdsort.Props
